@@ -317,6 +317,8 @@ CORPUS = [
     # blocker shared by two choice points: reference counts survive remove + rollback
     [["add", 0, 0, False], ["add", 3, 3, False], ["incref", 0, 1], ["incref", 3, 1], ["incref", 0, 3], ["remove", 0, 0],
      ["rollback", 5], ["remove", 3, 3], ["rollback", 6], ["rollback", 2]],
+    # second reference to an active blocker after a matching package was forced in: must report it (fix 0a3cc5d)
+    [["incref", 0, 0], ["add", 0, 0, True], ["incref", 1, 0], ["rollback", 2], ["rollback", 0]],
     # same blocker twice for one choice point
     [["add", 0, 0, False], ["incref", 0, 1], ["incref", 0, 1], ["decref", 0, 1], ["rollback", 3], ["remove", 0, 0], ["rollback", 1]],
     # replace displacing a package that carries blockers; refused add; hard references counted
